@@ -500,7 +500,7 @@ where
                     None,
                     None,
                 )
-                .unwrap();
+                .map_err(|_| MatrixError::IndexError)?;
 
             // get cardinality of new parent node u
             let c_a = T::from(card[a]).unwrap();
